@@ -1,4 +1,6 @@
 """C05 - hash routing returns a well-formed replica set for every metric."""
+import itertools
+
 from hypothesis import strategies as st
 
 from .. import env, gen
@@ -233,6 +235,25 @@ def execute(ctx, case):
     if not same:
       ctx.fail('C05:unstable-result', 'key %r -> %r first, %r later with the destination set unchanged' % (k, first[k], again),
                dict(case, key=k, names=[]), 'determinism')
+      return
+  # two look-ups alive at the same time (a lazy pipeline, zip(), two threads each iterating its own): each still
+  # gets its own well-formed list
+  ks = [k for k in list(first)[:40]]
+  for k1, k2 in zip(ks[::2], ks[1::2]):
+    try:
+      g1, g2 = router.getDestinations(k1), router.getDestinations(k2)
+      l1, l2 = [], []
+      for a_, b_ in itertools.zip_longest(g1, g2):
+        if a_ is not None:
+          l1.append(tuple(a_))
+        if b_ is not None:
+          l2.append(tuple(b_))
+    except Exception as e:  # noqa
+      ctx.fail('C05:getDestinations-raised:%s' % type(e).__name__, 'interleaved look-ups of %r and %r raised %r' % (k1, k2, e), dict(case, key=k1, names=[]))
+      return
+    if l1 != first[k1] or l2 != first[k2]:
+      ctx.fail('C05:unstable-result', 'look-ups of %r and %r consumed alternately give %r / %r, one at a time %r / %r' % (
+        k1, k2, l1, l2, first[k1], first[k2]), dict(case, key=k1, names=[]), 'determinism')
       return
   ctx.evaluations += len(keys) - 1
   per_server = {}
